@@ -236,7 +236,11 @@ func checkC01(ref *progen.Ref, o *runOut) []finding {
 func checkC02(ref *progen.Ref, o *runOut) []finding {
 	var out []finding
 	if !o.res.Returned {
-		return nil // C03 judges termination
+		if len(o.res.Panics) == 0 && len(o.res.DoubleClose) == 0 && !o.res.StepCapHit {
+			// "returns the same value as ..." is not met by a call that never returns (C03 names the deadlock)
+			return []finding{{"no_result", "fault-free call never returned: " + describeBlocked(o.res.Blocked)}}
+		}
+		return nil
 	}
 	if o.err != nil {
 		out = append(out, finding{"result", fmt.Sprintf("fault-free call returned error %v", o.err)})
